@@ -742,8 +742,6 @@ inline void comm::pack_lambda_broadcast(Lambda l, const PackArgs &...args) {
 
     int num_layers = c->layout().node_size() / c->layout().local_size() +
                      (c->layout().node_size() % c->layout().local_size() > 0);
-    int num_ranks_per_layer =
-        c->layout().local_size() * c->layout().local_size();
     int node_partner_offset = (c->layout().local_id() - c->layout().node_id()) %
                               c->layout().local_size();
 
@@ -755,16 +753,17 @@ inline void comm::pack_lambda_broadcast(Lambda l, const PackArgs &...args) {
 
     // Only forward remotely if initial remote node exists
     if (node_partner_offset < c->layout().node_size()) {
-      int curr_partner = c->layout().strided_ranks()[node_partner_offset];
       for (int l = 0; l < num_layers; l++) {
-        if (curr_partner >= c->layout().size()) {
+        // Look the partner up by node id: computing its rank is only right
+        // when ranks are placed on nodes in consecutive blocks
+        int partner_node = node_partner_offset + l * c->layout().local_size();
+        if (partner_node >= c->layout().node_size()) {
           break;
         }
+        int curr_partner = c->layout().strided_ranks()[partner_node];
         if (!c->layout().is_local(curr_partner)) {
           c->queue_message_bytes(packed_msg, curr_partner);
         }
-
-        curr_partner += num_ranks_per_layer;
       }
     }
 
